@@ -102,6 +102,14 @@ fn lib_source(l: &str, deps: &[&str], variant: u8, kind: &str) -> String {
         let (tr, m) = if iface && kind == which { (format!("U{}", l), "u") } else { (format!("T{}", l), "t") };
         s.push_str(&format!("impl Bx{l}[{inst}] {{ fn run[V: {tr}](self: Bx{l}[{inst}], w: V) -> int32 {{ {tr}::{m}(w) }} }}\n", l = l, inst = inst, tr = tr, m = m));
     }
+    // values of the enum and of the struct are built, taken apart and kept in a tuple, a vector and a
+    // closure (the core file then holds constructor indices, field indices and arities)
+    let (vy, vx) = (format!("Y{}", l), format!("X{}", l));
+    if !(iface && matches!(kind, "enum-payload-changed" | "struct-field-retyped" | "type-renamed" | "generic-param-added")) {
+        s.push_str(&format!("fn mk{l}(k: int32) -> E{l} {{ if k > 0 {{ {vy}(k) }} else {{ {vx} }} }}\n", l = l, vy = vy, vx = vx));
+        s.push_str(&format!("fn un{l}(e: E{l}) -> int32 {{ match e {{ {vx} => 0, {vy}(w) => w, _ => 2 }} }}\n", l = l, vy = vy, vx = vx));
+        s.push_str(&format!("fn shapes{l}(k: int32) -> int32 {{ let t = (k, {sn} {{ a: k{extra} }}); let c = |q: int32| q + t.0; let w = vec_push(vec_new(), t.1.a); c(un{l}(mk{l}(k))) + vec_get(w, 0) }}\n", l = l, sn = sname, extra = if iface && kind == "struct-field-added" { ", b: 0" } else { "" }));
+    }
     let mut body = format!("x + {}", k);
     for d in deps {
         body.push_str(&format!(" + {}::f{}(x)", d, d));
